@@ -207,13 +207,16 @@ let lop_of toks : LimitBid.lop * int * string =
     (LimitBid.Withdraw (z_of_string who, z_of_string coll, z_of_string debt, z_of_string prem, z_of_string den, z_of_string amt), int_of_string who, res)
   | l -> failwith ("bad limit op: " ^ S.concat " " l)
 
-type fill = { fdebt : BinNums.coq_Z; fcoll : BinNums.coq_Z; fprem : BinNums.coq_Z; fD : BinNums.coq_Z; fok : bool; fwhos : BinNums.coq_Z list }
+(* ffills: the limit bids the closure bid with, in order, each with the amount actually bid for it *)
+type fill = { fdebt : BinNums.coq_Z; fcoll : BinNums.coq_Z; fprem : BinNums.coq_Z; fD : BinNums.coq_Z; fok : bool;
+              ffills : (BinNums.coq_Z * BinNums.coq_Z) list }
 
 let fill_of toks =
   match toks with
-  | "op" :: "fill" :: debt :: coll :: prem :: d :: ok :: n :: whos when L.length whos = int_of_string n ->
+  | "op" :: "fill" :: debt :: coll :: prem :: d :: ok :: n :: rest when L.length rest = 2 * int_of_string n ->
+    let rec pairs = function w :: b :: tl -> (z_of_string w, z_of_string b) :: pairs tl | _ -> [] in
     { fdebt = z_of_string debt; fcoll = z_of_string coll; fprem = z_of_string prem; fD = z_of_string d; fok = bool_of_tok ok;
-      fwhos = L.map z_of_string whos }
+      ffills = pairs rest }
   | l -> failwith ("bad fill line: " ^ S.concat " " l)
 
 let key_of_op = function
@@ -245,9 +248,10 @@ let lim_check (c : lcase) (o : lobs) =
   let nfills = L.length fills in
   L.iteri (fun i f ->
       is_block := true;
-      Buffer.add_string c.lsig (Printf.sprintf "f%s:%s:%s:%s:%b:%s;" (zs f.fdebt) (zs f.fcoll) (zs f.fprem) (zs f.fD) f.fok (S.concat "," (L.map zs f.fwhos)));
+      Buffer.add_string c.lsig (Printf.sprintf "f%s:%s:%s:%s:%b:%s;" (zs f.fdebt) (zs f.fcoll) (zs f.fprem) (zs f.fD) f.fok
+                                  (S.concat "," (L.map (fun (w, b) -> zs w ^ "=" ^ zs b) f.ffills)));
       bump "op:fill"; bump (if f.fok then "fill:committed" else "fill:rolled-back");
-      L.iter (fun w -> note_key { LimitBid.k_debt = f.fdebt; k_coll = f.fcoll; k_prem = f.fprem; k_who = w }) f.fwhos;
+      L.iter (fun (w, _) -> note_key { LimitBid.k_debt = f.fdebt; k_coll = f.fcoll; k_prem = f.fprem; k_who = w }) f.ffills;
       let s = (match c.lst with Some s -> s | None -> assert false) in
       let dn = denom_of_asset c f.fdebt in
       let spent =
@@ -255,7 +259,9 @@ let lim_check (c : lcase) (o : lobs) =
           match dn with
           | Some d when d >= 0 && d < 3 ->
             let later = L.exists (fun (j, g) -> j > i && g.fok && denom_of_asset c g.fdebt = dn) (L.mapi (fun j g -> (j, g)) fills) in
-            let charge = zz_of_z (snd (LimitBid.fill_recs f.fdebt f.fcoll f.fprem f.fD f.fwhos s)) in
+            let charge = (match LimitBid.fill_recs f.fdebt f.fcoll f.fprem f.ffills s with
+                | Some (_, ch) -> zz_of_z ch
+                | None -> L.fold_left (fun acc (_, b) -> Z.add acc (zz_of_z b)) Z.zero f.ffills) in
             let x = if later then Z.max Z.zero (Z.min charge remaining.(d)) else remaining.(d) in
             remaining.(d) <- Z.sub remaining.(d) x;
             (* the settlement against what the records were charged: less = the bid was cut down to the
@@ -267,16 +273,20 @@ let lim_check (c : lcase) (o : lobs) =
       (* branch statistics, on the model's records *)
       if f.fok then begin
         c.fills <- c.fills + 1;
-        (try L.iter (fun w ->
-             match LimitBid.aget LimitBid.keq { LimitBid.k_debt = f.fdebt; k_coll = f.fcoll; k_prem = f.fprem; k_who = w } s.LimitBid.recs with
+        (* the outstanding debt as the closure's earlier bids left it *)
+        let debt = ref (zz_of_z f.fD) in
+        L.iter (fun (w, b) ->
+            (match LimitBid.aget LimitBid.keq { LimitBid.k_debt = f.fdebt; k_coll = f.fcoll; k_prem = f.fprem; k_who = w } s.LimitBid.recs with
              | Some r ->
-               let cmp = Z.compare (zz_of_z r.LimitBid.r_amt) (zz_of_z f.fD) in
+               let cmp = Z.compare (zz_of_z r.LimitBid.r_amt) !debt in
                bump (if cmp = 0 then "fill:record=debt" else if cmp > 0 then "fill:record>debt" else "fill:record<debt");
-               if cmp = 0 then raise Exit
-             | None -> bump "fill:record-gone") f.fwhos with Exit -> ());
-        if L.length f.fwhos > 1 then bump "fill:several-records"
+               let cb = Z.compare (zz_of_z b) (Z.min (zz_of_z r.LimitBid.r_amt) !debt) in
+               if cb < 0 then bump "fill:bid-cut-to-collateral"
+             | None -> bump "fill:record-gone");
+            debt := Z.sub !debt (zz_of_z b)) f.ffills;
+        if L.length f.ffills > 1 then bump "fill:several-records"
       end;
-      let op = LimitBid.AutoFill (f.fdebt, f.fcoll, f.fprem, f.fD, f.fwhos, z_of_zz spent, f.fok) in
+      let op = LimitBid.AutoFill (f.fdebt, f.fcoll, f.fprem, f.ffills, z_of_zz spent, f.fok) in
       (match LimitBid.lstep c.cfg s op with
        | Base.Ok s' -> c.lst <- Some s'
        | Base.Err code -> if f.fok then mm "fill-result" ("err" ^ zs code) "ok"
@@ -342,7 +352,7 @@ let lim_check (c : lcase) (o : lobs) =
   (* a block pays no debt coins to anybody *)
   (match !is_block, pre_impl with
    | true, Some (ps, po) ->
-     let op = LimitBid.AutoFill (BinNums.Z0, BinNums.Z0, BinNums.Z0, BinNums.Z0, [], BinNums.Z0, true) in
+     let op = LimitBid.AutoFill (BinNums.Z0, BinNums.Z0, BinNums.Z0, [], BinNums.Z0, true) in
      for who = 0 to c.lnb - 1 do
        for d = 0 to 2 do
          let delta = Z.sub (Z.of_string o.lbals.(who).(d)) (Z.of_string po.lbals.(who).(d)) in
